@@ -1,0 +1,12 @@
+//go:build verif
+
+package fzf
+
+// Verification hooks (build tag verif): thin exported wrappers around the
+// unexported History methods. No logic.
+
+func (h *History) VerifAppend(line string) error { return h.append(line) }
+func (h *History) VerifOverride(str string)      { h.override(str) }
+func (h *History) VerifCurrent() string          { return h.current() }
+func (h *History) VerifPrevious() string         { return h.previous() }
+func (h *History) VerifNext() string             { return h.next() }
